@@ -430,22 +430,22 @@ impl World {
 
 
 #[derive(Clone)]
-struct Wd { owner: Pubkey, key: Pubkey, exec_lamports: u64 }
+struct Wd { owner: Pubkey, receiver: Pubkey, key: Pubkey, exec_lamports: u64 }
 
 impl World {
     fn withdrawal_key(&self, owner: &Pubkey, nonce: &[u8; 32]) -> Pubkey {
         Pubkey::find_program_address(&[gmsol_store::states::withdrawal::Withdrawal::SEED, self.store.as_ref(), owner.as_ref(), nonce], &gmsol_store::ID).0
     }
 
-    fn create_withdrawal(&mut self, owner: Pubkey, nonce: [u8; 32], mt_amount: u64, min_long: u64, min_short: u64, exec_lamports: u64) -> std::result::Result<Wd, (ProgramError, bool)> {
+    fn create_withdrawal(&mut self, owner: Pubkey, receiver: Pubkey, nonce: [u8; 32], mt_amount: u64, min_long: u64, min_short: u64, exec_lamports: u64) -> std::result::Result<Wd, (ProgramError, bool)> {
         let key = self.withdrawal_key(&owner, &nonce);
         let params = gmsol_store::ops::withdrawal::CreateWithdrawalParams { execution_lamports: exec_lamports, long_token_swap_path_length: 0, short_token_swap_path_length: 0,
             market_token_amount: mt_amount, min_long_token_amount: min_long, min_short_token_amount: min_short, should_unwrap_native_token: false };
         let (l, s, mt) = (self.long, self.short, self.market_token);
-        let metas = [sg(owner), ro(owner), ro(self.store), rw(self.market), rw(key), ro(mt), ro(l), ro(s),
+        let metas = [sg(owner), ro(receiver), ro(self.store), rw(self.market), rw(key), ro(mt), ro(l), ro(s),
             rw(ata(&key, &mt)), rw(ata(&key, &l)), rw(ata(&key, &s)), rw(ata(&owner, &mt)), ro(SYS), ro(spl_token::ID), ro(ata_prog::ID)];
         self.b.run(gmsol_store::ID, &metas, &gmsol_store::instruction::CreateWithdrawal { nonce, params }.data())?;
-        Ok(Wd { owner, key, exec_lamports })
+        Ok(Wd { owner, receiver, key, exec_lamports })
     }
 
     fn execute_withdrawal(&mut self, authority: Pubkey, w: &Wd, execution_fee: u64, throw: bool) -> std::result::Result<(), (ProgramError, bool)> {
@@ -458,15 +458,15 @@ impl World {
 
     fn close_withdrawal(&mut self, executor: Pubkey, w: &Wd) -> std::result::Result<(), (ProgramError, bool)> {
         let (l, s, mt) = (self.long, self.short, self.market_token);
-        let metas = [sg(executor), ro(self.store), rw(self.store_wallet), rw(w.owner), rw(w.owner), ro(mt), ro(l), ro(s), rw(w.key),
-            rw(ata(&w.key, &mt)), rw(ata(&w.key, &l)), rw(ata(&w.key, &s)), rw(ata(&w.owner, &mt)), rw(ata(&w.owner, &l)), rw(ata(&w.owner, &s)),
+        let metas = [sg(executor), ro(self.store), rw(self.store_wallet), rw(w.owner), rw(w.receiver), ro(mt), ro(l), ro(s), rw(w.key),
+            rw(ata(&w.key, &mt)), rw(ata(&w.key, &l)), rw(ata(&w.key, &s)), rw(ata(&w.owner, &mt)), rw(ata(&w.receiver, &l)), rw(ata(&w.receiver, &s)),
             ro(SYS), ro(spl_token::ID), ro(ata_prog::ID), ro(self.event_authority), ro(gmsol_store::ID)];
         self.b.run(gmsol_store::ID, &metas, &gmsol_store::instruction::CloseWithdrawal { reason: "test".to_string() }.data())
     }
 }
 
 #[derive(Clone)]
-struct Ord { owner: Pubkey, key: Pubkey, exec_lamports: u64, long_to_short: bool }
+struct Ord { owner: Pubkey, receiver: Pubkey, key: Pubkey, exec_lamports: u64, long_to_short: bool }
 
 impl World {
     fn user_header_key(&self, owner: &Pubkey) -> Pubkey {
@@ -481,18 +481,18 @@ impl World {
     }
 
     /// market swap order: `amount` of long (or short) collateral in, the other token out
-    fn create_swap_order(&mut self, owner: Pubkey, nonce: [u8; 32], long_to_short: bool, amount: u64, min_output: u128, exec_lamports: u64) -> std::result::Result<Ord, (ProgramError, bool)> {
+    fn create_swap_order(&mut self, owner: Pubkey, receiver: Pubkey, nonce: [u8; 32], long_to_short: bool, amount: u64, min_output: u128, exec_lamports: u64) -> std::result::Result<Ord, (ProgramError, bool)> {
         let key = self.order_key(&owner, &nonce);
         let (tin, tout) = if long_to_short { (self.long, self.short) } else { (self.short, self.long) };
         let params = gmsol_store::ops::order::CreateOrderParams { kind: gmsol_utils::order::OrderKind::MarketSwap, decrease_position_swap_type: None, execution_lamports: exec_lamports,
             swap_path_length: 1, initial_collateral_delta_amount: amount, size_delta_value: 0, is_long: true, is_collateral_long: true, min_output: Some(min_output),
             trigger_price: None, acceptable_price: None, should_unwrap_native_token: false, valid_from_ts: None };
         let pid = gmsol_store::ID;
-        let metas = [sg(owner), ro(owner), ro(self.store), rw(self.market), rw(self.user_header_key(&owner)), rw(key), ro(pid),
+        let metas = [sg(owner), ro(receiver), ro(self.store), rw(self.market), rw(self.user_header_key(&owner)), rw(key), ro(pid),
             ro(tin), ro(tout), ro(pid), ro(pid), rw(ata(&key, &tin)), rw(ata(&key, &tout)), ro(pid), ro(pid), rw(ata(&owner, &tin)),
             ro(SYS), ro(spl_token::ID), ro(ata_prog::ID), ro(pid), ro(pid), ro(pid), ro(pid), ro(self.event_authority), ro(pid), ro(self.market)];
         self.b.run(pid, &metas, &gmsol_store::instruction::CreateOrderV2 { nonce, params, callback_version: None }.data())?;
-        Ok(Ord { owner, key, exec_lamports, long_to_short })
+        Ok(Ord { owner, receiver, key, exec_lamports, long_to_short })
     }
 
     fn execute_swap_order(&mut self, authority: Pubkey, o: &Ord, execution_fee: u64, throw: bool) -> std::result::Result<(), (ProgramError, bool)> {
@@ -507,9 +507,9 @@ impl World {
     fn close_order(&mut self, executor: Pubkey, o: &Ord) -> std::result::Result<(), (ProgramError, bool)> {
         let (tin, tout) = if o.long_to_short { (self.long, self.short) } else { (self.short, self.long) };
         let pid = gmsol_store::ID;
-        let metas = [sg(executor), rw(self.store), rw(self.store_wallet), rw(o.owner), rw(o.owner), rw(o.owner), rw(self.user_header_key(&o.owner)), ro(pid), rw(o.key),
+        let metas = [sg(executor), rw(self.store), rw(self.store_wallet), rw(o.owner), rw(o.receiver), rw(o.owner), rw(self.user_header_key(&o.owner)), ro(pid), rw(o.key),
             ro(tin), ro(tout), ro(pid), ro(pid), rw(ata(&o.key, &tin)), rw(ata(&o.key, &tout)), ro(pid), ro(pid),
-            rw(ata(&o.owner, &tin)), rw(ata(&o.owner, &tout)), ro(pid), ro(pid), ro(SYS), ro(spl_token::ID), ro(ata_prog::ID), ro(pid), ro(pid), ro(pid), ro(pid), ro(self.event_authority), ro(pid)];
+            rw(ata(&o.owner, &tin)), rw(ata(&o.receiver, &tout)), ro(pid), ro(pid), ro(SYS), ro(spl_token::ID), ro(ata_prog::ID), ro(pid), ro(pid), ro(pid), ro(pid), ro(self.event_authority), ro(pid)];
         self.b.run(pid, &metas, &gmsol_store::instruction::CloseOrderV2 { reason: "test".to_string() }.data())
     }
 }
@@ -526,6 +526,7 @@ enum Handle { D(Dep), W(Wd), O(Ord) }
 impl Handle {
     fn key(&self) -> Pubkey { match self { Handle::D(d) => d.key, Handle::W(w) => w.key, Handle::O(o) => o.key } }
     fn owner(&self) -> Pubkey { match self { Handle::D(d) => d.owner, Handle::W(w) => w.owner, Handle::O(o) => o.owner } }
+    fn receiver(&self) -> Pubkey { match self { Handle::D(d) => d.receiver, Handle::W(w) => w.receiver, Handle::O(o) => o.receiver } }
     fn exec_lamports(&self) -> u64 { match self { Handle::D(d) => d.exec_lamports, Handle::W(w) => w.exec_lamports, Handle::O(o) => o.exec_lamports } }
 }
 type Id = (u8, char, u8);
@@ -564,7 +565,7 @@ fn recorded(w: &World) -> (u64, u64) { let m: Box<gmsol_store::states::Market> =
 fn digest(s: &Sid) -> String {
     let w = &s.w;
     let users: Vec<String> = (0..NUSERS).map(|u| { let k = user_key(u); format!("{u}:{}:{}:{}", bal(w, &k, &w.long), bal(w, &k, &w.short), bal(w, &k, &w.market_token)) }).collect();
-    let acts: Vec<String> = s.acts.keys().filter_map(|id| act_state(w, *id).map(|st| { let e = esc(w, &action_key(w, *id)); format!("{}.{}.{}:{st}:{}:{}:{}", id.0, id.1, id.2, e.0, e.1, e.2) })).collect();
+    let acts: Vec<String> = s.acts.keys().filter_map(|id| act_state(w, *id).map(|st| { let e = esc(w, &action_key(w, *id)); let rc = s.acts[id].receiver().to_bytes()[0] - 100; format!("{}.{}.{}:{st}:{}:{}:{}:r{rc}", id.0, id.1, id.2, e.0, e.1, e.2) })).collect();
     let (v, r) = (vaults(w), recorded(w));
     format!("now={} users=[{}] acts=[{}] vault={}:{} rec={}:{} supply={}", s.now, users.join(","), acts.join(","), v.0, v.1, r.0, r.1, mint_supply(&w.b, &w.market_token))
 }
@@ -644,8 +645,9 @@ fn exec(ss: &mut BTreeMap<String, Sid>, req: &str, out: &mut Out) -> (String, bo
         }
         "create" => {
             if t.len() != 9 { return bad(); }
-            let (Some(id), Some(a), Some(b), Some(flag), Some(el)) = (parse_id(&format!("{}.{}.{}", t[3], t[4], t[5])), t[6].parse::<u64>().ok(), t[7].parse::<u64>().ok(), t[8].split(':').next().and_then(|x| x.parse::<u8>().ok()), t[8].split(':').nth(1).and_then(|x| x.parse::<u64>().ok())) else { return bad() };
-            if flag > 1 || el > 50_000_000 || (id.1 != 'd' && b != 0) { return bad(); }
+            let (Some(id), Some(a), Some(b), Some(flag), Some(el), Some(rc)) = (parse_id(&format!("{}.{}.{}", t[3], t[4], t[5])), t[6].parse::<u64>().ok(), t[7].parse::<u64>().ok(), t[8].split(':').next().and_then(|x| x.parse::<u8>().ok()), t[8].split(':').nth(1).and_then(|x| x.parse::<u64>().ok()), t[8].split(':').nth(2).and_then(|x| x.parse::<u8>().ok())) else { return bad() };
+            if flag > 1 || el > 50_000_000 || (id.1 != 'd' && b != 0) || rc >= NUSERS || t[8].split(':').count() != 3 { return bad(); }
+            let receiver = user_key(rc);
             let owner = user_key(id.0);
             let key = action_key(&s.w, id);
             let nonce = nonce_of(id.1, id.2);
@@ -656,9 +658,9 @@ fn exec(ss: &mut BTreeMap<String, Sid>, req: &str, out: &mut Out) -> (String, bo
             let occupied = s.w.b.m.contains_key(&key);
             let big = flag == 1;
             let r = match id.1 {
-                'd' => s.w.create_deposit(owner, owner, nonce, a, b, if big { u64::MAX } else { 0 }, el, true, true).map(Handle::D),
-                'w' => s.w.create_withdrawal(owner, nonce, a, if big { u64::MAX } else { 0 }, 0, el).map(Handle::W),
-                k => s.w.create_swap_order(owner, nonce, k == 's', a, if big { u64::MAX as u128 } else { 0 }, el).map(Handle::O),
+                'd' => s.w.create_deposit(owner, receiver, nonce, a, b, if big { u64::MAX } else { 0 }, el, true, true).map(Handle::D),
+                'w' => s.w.create_withdrawal(owner, receiver, nonce, a, if big { u64::MAX } else { 0 }, 0, el).map(Handle::W),
+                k => s.w.create_swap_order(owner, receiver, nonce, k == 's', a, if big { u64::MAX as u128 } else { 0 }, el).map(Handle::O),
             };
             match r {
                 Err(_) => (format!("err | {}", digest(s)), false),
@@ -731,7 +733,9 @@ fn exec(ss: &mut BTreeMap<String, Sid>, req: &str, out: &mut Out) -> (String, bo
             let (lm, sm, mt) = (s.w.long, s.w.short, s.w.market_token);
             let st0 = act_state(&s.w, id);
             let e0 = esc(&s.w, &key);
+            let receiver = h.receiver();
             let ub = (bal(&s.w, &owner, &lm), bal(&s.w, &owner, &sm), bal(&s.w, &owner, &mt));
+            let rb = (bal(&s.w, &receiver, &lm), bal(&s.w, &receiver, &sm), bal(&s.w, &receiver, &mt));
             let ledger0 = s.w.b.clone();
             let r = match &h { Handle::D(d) => s.w.close_deposit(ex, d, true, true), Handle::W(x) => s.w.close_withdrawal(ex, x), Handle::O(o) => s.w.close_order(ex, o) };
             match r {
@@ -742,16 +746,27 @@ fn exec(ss: &mut BTreeMap<String, Sid>, req: &str, out: &mut Out) -> (String, bo
                 }
                 Ok(()) => {
                     let is_owner = ex == owner;
-                    if !is_owner && ex != s.w.keeper { out.oracle_fail("a stranger closed the action", req); }
+                    if !is_owner && ex != s.w.keeper { out.oracle_fail("a stranger (possibly the receiver) closed the action", req); }
                     if !is_owner && st0 == Some(0) { out.oracle_fail("a keeper closed a pending action", req); }
                     if s.w.b.m.contains_key(&key) { out.oracle_fail("action account still exists after close", req); }
                     for m in [lm, sm, mt] { if bal(&s.w, &key, &m) != 0 || s.w.b.m.contains_key(&ata(&key, &m)) { out.oracle_fail("escrow is not empty/closed after close", req); } }
                     let ua = (bal(&s.w, &owner, &lm), bal(&s.w, &owner, &sm), bal(&s.w, &owner, &mt));
-                    if (ua.0 - ub.0, ua.1 - ub.1, ua.2 - ub.2) != e0 { out.oracle_fail("escrowed tokens did not all go home to the owner", req); }
+                    let ra = (bal(&s.w, &receiver, &lm), bal(&s.w, &receiver, &sm), bal(&s.w, &receiver, &mt));
+                    // input-side escrow (refunds) belongs to the OWNER, output-side escrow (proceeds) to the RECEIVER
+                    let (refund, proceeds) = match id.1 { 'd' => ((e0.0, e0.1, 0), (0, 0, e0.2)), 'w' => ((0, 0, e0.2), (e0.0, e0.1, 0)), 's' => ((e0.0, 0, 0), (0, e0.1, 0)), _ => ((0, e0.1, 0), (e0.0, 0, 0)) };
+                    if receiver == owner {
+                        if (ua.0 - ub.0, ua.1 - ub.1, ua.2 - ub.2) != e0 { out.oracle_fail("escrowed tokens did not all go home to the owner", req); }
+                    } else {
+                        if (ua.0 - ub.0, ua.1 - ub.1, ua.2 - ub.2) != refund { out.oracle_fail("refunds (input-side escrow) did not go to the owner", req); }
+                        if (ra.0 - rb.0, ra.1 - rb.1, ra.2 - rb.2) != proceeds { out.oracle_fail("proceeds (output-side escrow) did not go to the receiver", req); }
+                    }
+                    if st0 != Some(1) && proceeds != (0, 0, 0) { out.oracle_fail("a pending/cancelled action held proceeds", req); }
+                    if st0 == Some(1) && refund != (0, 0, 0) { out.oracle_fail("a completed action still held input escrow", req); }
                     s.acts.remove(&id);
                     s.changes.remove(&id);
                     invariants(s, &tot0, req, out);
                     out.stat(if is_owner { "close.by_owner" } else { "close.by_keeper" });
+                    if !is_owner && e0 != (0, 0, 0) { out.stat(&format!("close.keeper_with_escrow.{}.{}", id.1, st0.unwrap_or(9))); }
                     (format!("ok | {}", digest(s)), true)
                 }
             }
@@ -780,7 +795,7 @@ fn gen_next(r: &mut Rng, ss: &BTreeMap<String, Sid>, g: &mut Gen) -> String {
             let have_mt = bal(&s.w, &owner, &s.w.market_token);
             let pool = vaults(&s.w);
             // withdrawals / swaps need liquidity: prefer deposits while the pool is empty
-            let k = if pool.0 == 0 { if r.chance(5, 6) { 'd' } else { ['w', 's', 't'][r.below(3) as usize] } } else { match r.below(10) { 0 | 1 | 2 => 'd', 3 | 4 | 5 => if have_mt > 0 { 'w' } else { 'd' }, 6 | 7 => 's', _ => 't' } };
+            let k = if pool.0 == 0 { if r.chance(5, 6) { 'd' } else { ['w', 's', 't'][r.below(3) as usize] } } else { match r.below(10) { 0 | 1 => 'd', 2 | 3 | 4 | 5 => if have_mt > 0 { 'w' } else { 'd' }, 6 | 7 => 's', _ => 't' } };
             let i = if r.chance(5, 6) { (0..NSLOTS).find(|i| !live.iter().any(|l| l.0 == (u, k, *i))).unwrap_or(r.below(NSLOTS as u64) as u8) } else { r.below(NSLOTS as u64) as u8 };
             let (a, b) = match k {
                 'd' => (match r.below(6) { 0 => 0, 1 => LONG0 + 1, _ => r.range(1, 5_000_000_000) }, match r.below(6) { 0 => 0, 1 => SHORT0 + 1, _ => r.range(1, 500_000_000) }),
@@ -789,7 +804,8 @@ fn gen_next(r: &mut Rng, ss: &BTreeMap<String, Sid>, g: &mut Gen) -> String {
                 _ => (match r.below(8) { 0 => 0, 1 => SHORT0 + 1, 2 => r.range(1, 3_000_000_000), _ => r.range(1, 50_000_000) }, 0),
             };
             let el = match r.below(8) { 0 => r.range(0, 299_999), _ => r.range(300_000, 5_000_000) };
-            format!("l2 create {sid} {u} {k} {i} {a} {b} {}:{el}", if r.chance(1, 4) { 1 } else { 0 })
+            let rc = if r.chance(1, 2) { u } else { r.below(NUSERS as u64) as u8 };
+            format!("l2 create {sid} {u} {k} {i} {a} {b} {}:{el}:{rc}", if r.chance(1, if k == 'w' { 2 } else { 4 }) { 1 } else { 0 })
         }
         6 | 7 | 8 | 9 => {
             let (id, st) = pick(r);
@@ -809,6 +825,11 @@ fn gen_next(r: &mut Rng, ss: &BTreeMap<String, Sid>, g: &mut Gen) -> String {
                 }
             }
             let e = format!("l2 exec {sid} {whoo} {} {fee} {throw} {f} {x} {y}", ids(id));
+            // after an execute, often a keeper (sometimes the receiver or the owner) closes that very action while it still holds escrow
+            if st == Some(0) && r.chance(1, 2) {
+                let closer = match r.below(6) { 0 | 1 | 2 => "k".to_string(), 3 => s.acts.get(&id).map(|h| format!("u{}", h.receiver().to_bytes()[0] - 100)).unwrap_or("k".into()), _ => format!("u{}", id.0) };
+                g.queue.push(format!("l2 close {sid} {closer} {}", ids(id)));
+            }
             if fresh { g.queue.push(e); return format!("l2 price {sid} 0"); }
             e
         }
@@ -816,7 +837,7 @@ fn gen_next(r: &mut Rng, ss: &BTreeMap<String, Sid>, g: &mut Gen) -> String {
             // completed deposits are usually closed by their owner soon (that is where market tokens for withdrawals come from)
             let done: Vec<&(Id, Option<u8>)> = live.iter().filter(|l| l.1 == Some(1)).collect();
             let (id, st) = if !done.is_empty() && r.chance(1, 2) { *done[r.below(done.len() as u64) as usize] } else { pick(r) };
-            let whoo = match r.below(6) { 0 | 1 | 2 => format!("u{}", id.0), 3 => "k".into(), 4 => format!("u{}", r.below(NUSERS as u64)), _ => if st == Some(0) { "k".into() } else { "a".into() } };
+            let whoo = match r.below(7) { 0 | 1 | 2 => format!("u{}", id.0), 3 => "k".into(), 4 => format!("u{}", r.below(NUSERS as u64)), 5 => s.acts.get(&id).map(|h| format!("u{}", h.receiver().to_bytes()[0] - 100)).unwrap_or("k".into()), _ => if st == Some(0) { "k".into() } else { "a".into() } };
             format!("l2 close {sid} {whoo} {}", ids(id))
         }
     }
